@@ -247,10 +247,13 @@ theorem set_chunkAt (r : Ser) (c : Nat) (hc : 1 ≤ c) (D : Bytes) (o : Nat) (h 
       · exact absurd h ho
       · simp [ch, chunkAt_isFirst, ho, h]
   have hrun := FS.run_receiveOps r.fs r.incOpen ch (D.take o) hB
-  have hset : r.setTransmissionData (some ch) =
-      ({ r with fs := r.fs.run (receiveOps r.incOpen ch), incOpen := !ch.isLast }, ch.isLast) := by
+  have hset2 : (r.setTransmissionData (some ch)).2 = ch.isLast := by
     simp [Ser.setTransmissionData, hacc]
-  simp only [r', hset]
+  have hsetfs : (r.setTransmissionData (some ch)).1.fs = r.fs.run (receiveOps r.incOpen ch) := by
+    simp [Ser.setTransmissionData, hacc]
+  have hsetinc : (r.setTransmissionData (some ch)).1.incOpen = !ch.isLast := by
+    simp [Ser.setTransmissionData, hacc]
+  simp only [r', hsetfs, hsetinc, hset2]
   refine ⟨trivial, hrun.1, ?_⟩
   by_cases hl : ch.isLast = true
   · have hemp : (D.drop o).take c = [] := by simpa [ch, chunkAt_isLast] using hl
@@ -261,8 +264,10 @@ theorem set_chunkAt (r : Ser) (c : Nat) (hc : 1 ≤ c) (D : Bytes) (o : Nat) (h 
   · have hne : (D.drop o).take c ≠ [] := by simpa [ch, chunkAt_isLast] using hl
     have := hrun.2
     simp only [hl] at this ⊢
-    refine ⟨this.1, Or.inr ⟨by simp, ?_⟩, ?_⟩
-    · simp only [this.2, ch, chunkAt_data, take_add_chunk]
+    refine ⟨this.1, Or.inr ⟨by rw [hsetinc]; simp [hl], ?_⟩, ?_⟩
+    · show (r.setTransmissionData (some ch)).1.fs.tmp1 = _
+      rw [hsetfs, this.2]
+      simp only [ch, chunkAt_data, take_add_chunk]
     · exact List.length_pos_iff.mpr (by simpa [ch, chunkAt_data] using hne)
 
 
